@@ -546,6 +546,31 @@ func c03Scenario(name string) func() explore.SchedOutcome {
 			for i := 0; i < flood; i++ {
 				h.Send(ref.Tx{Type: ref.TGetUserNameList})
 			}
+		case "SC7": // a guest uploads a file, then a file whose name makes it the first one's information fork
+			h, _ := wd.Connect("10.0.0.66:6666", "admin", "secret", "hh")
+			hostiles = append(hostiles, h.Conn)
+			junk := make([]byte, 74)
+			junk[70] = 0x70 // read as an information fork this announces a 28,672-byte name
+			for i, up := range []struct {
+				name string
+				data []byte
+			}{{".info_f.txt", junk}, {".info_inner.txt", junk}} { // f.txt (root) and dir/inner.txt exist and have no stored information fork
+				fs := []ref.Fld{ref.FS(ref.FFileName, up.name), ref.F32(ref.FTransferSize, 300)}
+				if i == 1 {
+					fs = append(fs, ref.F(ref.FFilePath, ref.PathBytes("dir")))
+				}
+				id := h.Req(ref.TUploadFile, fs...)
+				world.Settle(5 * time.Second)
+				rep := h.Reply(id)
+				if rep == nil || rep.Err != 0 {
+					continue // refusing such a name is fine
+				}
+				refnum, _ := rep.Get(ref.FRefNum)
+				x := wd.DialTransfer(fmt.Sprintf("10.0.0.66:60%d", 10+i))
+				x.Feed(append(ref.Preamble(refnum, 0), ref.FlatFile(ref.NewInfoFork(up.name, "TEXT", "ttxt", ""), up.data, nil)...))
+				world.Settle(10 * time.Second)
+			}
+			base = ""
 		case "SC5": // a client that disconnects while a broadcast to it is in flight
 			g, _ := wd.Connect("10.0.0.9:1009", "admin", "secret", "adm")
 			base = c03Baseline(wd, sentinel)
@@ -596,7 +621,7 @@ func c03Scenario(name string) func() explore.SchedOutcome {
 	}
 }
 
-var c03Scenarios = []string{"SC1", "SC2", "SC3", "SC4", "SC5", "SC6", "SC6s"}
+var c03Scenarios = []string{"SC1", "SC2", "SC3", "SC4", "SC5", "SC6", "SC6s", "SC7"}
 
 // c03Flood is the number of requests the deaf client of SC6 sends (each leaves one reply pending for it).
 var c03Flood = 300
@@ -652,6 +677,8 @@ func runC03(w *explore.Worker) {
 		c03Current = "" // the watchdog guards single mutation cases; schedule exploration is bounded by the step horizon
 		b := bound
 		switch sc {
+		case "SC7":
+			b = 0 // a sequence, not a race
 		case "SC6":
 			b = 0 // 300 pending replies: thousands of steps per execution, default schedule and hold-backs only
 		case "SC6s":
